@@ -319,19 +319,30 @@ func (r *Run) Finish() int {
 			v.Replay = p
 		}
 	}
-	// coverage cells summary: counts per cell are kept when few, else per-prefix
+	// coverage cells summary: exact counts when few; otherwise cells are grouped by prefix and a
+	// group is kept cell by cell only if it is small
 	cells := map[string]int64{}
 	if len(r.cells) <= 400 {
 		for k, v := range r.cells {
 			cells[k] = v
 		}
 	} else {
-		for k, v := range r.cells {
-			p := k
+		group := func(k string) string {
 			if i := strings.IndexAny(k, ":/"); i > 0 {
-				p = k[:i] + ":*"
+				return k[:i]
 			}
-			cells[p] += v
+			return k
+		}
+		size := map[string]int{}
+		for k := range r.cells {
+			size[group(k)]++
+		}
+		for k, v := range r.cells {
+			if g := group(k); size[g] > 24 {
+				cells[fmt.Sprintf("%s:* (%d cells)", g, size[g])] += v
+			} else {
+				cells[k] = v
+			}
 		}
 	}
 	cov := map[string]interface{}{
